@@ -834,7 +834,7 @@ pub fn run(shard: &Shard) -> Report {
             let seen = rep.violation_counts.get(sig).cloned().unwrap_or(0);
             let mut r = replay.clone().set("violation", sig.clone());
             let mut what = what.clone();
-            if seen < 1 || shard.replay.is_some() {
+            if seen < 1 {
                 let cut = (*at_step).min(ops.len() - 1);
                 let min = shrink(cs, nparts, policy, &ops[..=cut], sig);
                 // the witness text of the minimal run
